@@ -278,7 +278,7 @@ def s_plus_seconds(eng, path, argv, callee):
 def _opt_eq(path, a, b):
     a, b = path.deref(a), path.deref(b)
     da, db = _two(path, a), _two(path, b)
-    pa, pb = a.get(('as', 'Some')).get(0), b.get(('as', 'Some')).get(0)
+    pa, pb = path.deref(a.get(('as', 'Some')).get(0)), path.deref(b.get(('as', 'Some')).get(0))
     return z3.And(da == db, z3.Or(da == 0, pa.scalar() == pb.scalar()))
 
 
